@@ -609,6 +609,12 @@ class AI:
             if dt.startswith("std::option::Option"):
                 return [done(dinfo=("t", 0))]
             return [done()]
+        if name in ("std::option::Option::is_none", "std::option::Option::is_some") and args:
+            pl = op_place(args[0])
+            if pl is not None and not pl["p"] and info.get(pl["l"], ("",))[0] == "rt" and tok in (0, 1):
+                v = (tok == 0) if name.endswith("is_none") else (tok == 1)
+                return [done(dinfo=("i", 1 if v else 0))]
+            return [done()]
         if name == "std::io::Error::kind":
             return [done(dinfo=("ek", 0))]
         if name == "<std::io::ErrorKind as std::cmp::PartialEq>::eq" and len(args) == 2 and self.eof_only_errors:
